@@ -25,6 +25,7 @@ def check(run):
     c04.docscan_obligation(run)
     text_structure_obligations(run)
     attachment_obligation(run)
+    scan_window_obligation(run)
 
 
 def text_structure_obligations(run):
@@ -50,6 +51,76 @@ def text_structure_obligations(run):
         run.validated += n
         if nat:
             run.inconclusive('native documentation-text sweep', 'replay', 'native discrepancy not explained by a solver verdict: %s' % str(nat[0])[:300])
+
+
+def scan_window_obligation(run):
+    """get_javadoc(input, pos) = find_content_string(&input[..pos]).map(parse_javadoc): the back-scan sees the WHOLE text in front of the
+    construct (the harnesses drive find_content_string; a narrower window or a pre-filter in between would escape them).  Symbolic
+    evaluation of the MIR of get_javadoc (straight-line code): the returned term must be exactly that composition."""
+    import re, mir
+    title = 'get_javadoc(input, pos) == find_content_string(&input[..pos]).map(parse_javadoc): the back-scan is given the whole prefix, its result only goes through parse_javadoc'
+    try:
+        prog = mir.Program(mir.dump_mir())
+    except mir.Unsupported as e:
+        run.inconclusive(title, 'M', str(e)); return
+    fs = [f for f in prog.fns if f.name.endswith('javadoc::get_javadoc')]
+    if len(fs) != 1:
+        run.inconclusive(title, 'M', '%d candidates for get_javadoc' % len(fs)); return
+    f = fs[0]
+    run.functions += ['javadoc::get_javadoc (%s)' % src_line('src/javadoc.rs', 'pub fn get_javadoc')]
+    env = {f.params[0][0]: ('input',), f.params[1][0]: ('pos',)}
+    why = None
+
+    def val(t):
+        t = t.strip()
+        m = re.match(r'^(?:copy|move) (_\d+)$', t)
+        if m:
+            return env.get(m.group(1), ('undef', m.group(1)))
+        return ('const', t)
+    bb, seen = 'bb0', set()
+    while why is None:
+        if bb in seen:
+            why = 'a loop'; break
+        seen.add(bb)
+        nxt = None
+        for st in f.blocks[bb]:
+            if st.startswith('StorageLive') or st.startswith('StorageDead') or st.startswith('nop'):
+                continue
+            if st == 'return;':
+                nxt = 'return'; break
+            m = re.match(r'^(_\d+) = RangeTo::<usize> \{ end: (.*) \};$', st)
+            if m:
+                env[m.group(1)] = ('rangeto', val(m.group(2))); continue
+            m = re.match(r'^(_\d+) = (.*\)) -> \[return: (bb\d+), unwind [^\]]*\];$', st)
+            if m:
+                call, depth, k = m.group(2), 0, len(m.group(2)) - 1
+                while k >= 0:
+                    depth += (call[k] == ')') - (call[k] == '(')
+                    if depth == 0:
+                        break
+                    k -= 1
+                callee, inner = call[:k], call[k + 1:-1]
+                args = [val(a) for a in inner.split(', ')] if inner else []
+                env[m.group(1)] = ('call', re.sub(r'::<.*', '', callee) if callee.startswith('std::option::Option') else callee, args)
+                nxt = m.group(3); break
+            m = re.match(r'^(_\d+) = ((?:copy|move) _\d+);$', st)
+            if m:
+                env[m.group(1)] = val(m.group(2)); continue
+            why = 'a statement outside the straight-line composition: %s' % st[:80]; break
+        if why or nxt == 'return':
+            break
+        if nxt is None:
+            why = 'a branch in %s' % bb; break
+        bb = nxt
+    want = ('call', 'std::option::Option', [('call', 'javadoc::find_content_string', [('call', '<str as Index<RangeTo<usize>>>::index', [('input',), ('rangeto', ('pos',))])]), ('const', 'javadoc::parse_javadoc')])
+    got = env.get('_0')
+    if why is None and got != want:
+        why = 'get_javadoc returns %s' % str(got)[:160]
+    if why is None:
+        run.holds(title, 'M', queries=1, bound='the whole function (straight-line, %d blocks)' % len(seen)); return
+    n, nb = native.sweep_doc_attachment()
+    run.validated += n
+    run.violated(title, 'M', 'scan-window', {'detail': why, 'native': nb[:1]}, bool(nb), detail=why)
 
 
 def attachment_obligation(run):
